@@ -86,6 +86,12 @@ pub struct CreateOptions {   // src/keyspace/options.rs (the fields apply_to_bas
     pub index_block_partitioning_policy: Policy, pub filter_block_partitioning_policy: Policy, pub filter_policy: Policy,
     pub compaction_filter_factory: Option<FilterFactory>, pub manual_journal_persist: bool,
 }
+impl CreateOptions {
+    // KeyspaceCreateOptions::default(): the built-in defaults -- whatever they are, they are not "the options stored for a keyspace"
+    // (nothing relates the result to any stored row)
+    #[verifier::external_body]
+    pub fn default() -> (r: CreateOptions) ensures r.compaction_filter_factory is None { unimplemented!() }
+}
 pub open spec fn optv(o: Option<KvSepOpts>) -> Option<int> { match o { Some(x) => Some(x.v@), None => None } }
 pub open spec fn facv(o: Option<FilterFactory>) -> Option<int> { match o { Some(x) => Some(x.v@), None => None } }
 /// what lsm-tree is configured with (ghost record of lsm_tree::Config builder calls)
